@@ -339,13 +339,11 @@ class Table(Vector):
 			return col
 
 		# Fallback: col<N>_ accessor (e.g., col5_ for column index 5)
-		elif attr.startswith('col') and attr.endswith('_'):
-			middle = attr[3:-1]  # Extract between 'col' and '_'
-			if middle.isdigit():
-				idx = int(middle)
-				if 0 <= idx < len(self._underlying):
-					return self._underlying[idx]
-				raise AttributeError(f"Column index {idx} out of range")
+		elif attr.startswith('col') and attr.endswith('_') and attr[3:-1].isdigit():
+			idx = int(attr[3:-1])  # digits between 'col' and '_'
+			if 0 <= idx < len(self._underlying):
+				return self._underlying[idx]
+			raise AttributeError(f"Column index {idx} out of range")
 		
 		else:
 			# Regular access: look up by sanitized name
